@@ -99,15 +99,18 @@ class Ruler(Generic[RuleFuncTv]):
                 continue
             for name in rule.alt:
                 chains.add(name)
-        self.__cache__ = {}
+        cache: dict[str, list[RuleFuncTv]] = {}
         for chain in chains:
-            self.__cache__[chain] = []
+            cache[chain] = []
             for rule in self.__rules__:
                 if not rule.enabled:
                     continue
                 if chain and (chain not in rule.alt):
                     continue
-                self.__cache__[chain].append(rule.fn)
+                cache[chain].append(rule.fn)
+        # publish the finished cache with a single assignment, so that a
+        # concurrent or re-entrant getRules never sees a half-built one
+        self.__cache__ = cache
 
     def at(
         self, ruleName: str, fn: RuleFuncTv, options: RuleOptionsType | None = None
